@@ -150,6 +150,48 @@ theorem rsConverged_refines (sqrt : K → K) (hsqrt : IsSqrt sqrt) (inf : K) (s 
     rw [← Rat.cast_mul, Rat.cast_lt]
   rw [e1, e2]
 
+/-! ### RunningCovariance -/
+
+theorem rcInit_refines : Gen.rcInit (K := K) = RC.init.toK := by
+  simp [Gen.rcInit, Gen.Default.rcInit, RC.toK, RC.init]
+
+/-- `RunningCovariance.update` -/
+theorem rcUpdate_refines (s : RC) (x y : ℚ) :
+    Gen.rcUpdate ((s.count : ℤ) : K) (s.xmean : K) (s.ymean : K) (s.C : K) (x : K) (y : K) = (s.update (x, y)).toK := by
+  simp only [Gen.rcUpdate, Gen.Default.rcUpdate, RC.toK, RC.update, Gen.covCount, Gen.Default.covCount,
+    Gen.covXmean, Gen.Default.covXmean, Gen.covYmean, Gen.Default.covYmean, Gen.covC, Gen.Default.covC]
+  push_cast
+  simp
+
+theorem foldl_toK_rc (g : K × K × K × K → K × K → K × K × K × K)
+    (hg : ∀ (s : RC) (p : ℚ × ℚ), g s.toK ((p.1 : K), (p.2 : K)) = (s.update p).toK)
+    (s : RC) (ps : List (ℚ × ℚ)) :
+    (ps.map fun p => (((p.1 : ℚ) : K), ((p.2 : ℚ) : K))).foldl g s.toK = (ps.foldl RC.update s).toK := by
+  induction ps generalizing s with
+  | nil => rfl
+  | cons p ps ih => simp only [List.map_cons, List.foldl_cons, hg, ih]
+
+/-- `RunningCovariance.update_from_it`: the translated `for x, y in zip(xs, ys): self.update(x, y)` is the model's fold -/
+theorem rcUpdateFromIt_refines (s : RC) (xs ys : List ℚ) :
+    Gen.rcUpdateFromIt ((s.count : ℤ) : K) (s.xmean : K) (s.ymean : K) (s.C : K)
+        (xs.map (Rat.cast : ℚ → K)) (ys.map (Rat.cast : ℚ → K)) = (s.updateFromIt (xs.zip ys)).toK := by
+  have h := foldl_toK_rc (K := K) (fun st p => Gen.rcUpdate st.1 st.2.1 st.2.2.1 st.2.2.2 p.1 p.2)
+    (fun s p => by simpa only [RC.toK] using rcUpdate_refines (K := K) s p.1 p.2) s (xs.zip ys)
+  have hz : (xs.map (Rat.cast : ℚ → K)).zip (ys.map (Rat.cast : ℚ → K))
+      = (xs.zip ys).map fun p => (((p.1 : ℚ) : K), ((p.2 : ℚ) : K)) := by
+    rw [List.zip_map]; rfl
+  simp only [Gen.rcUpdateFromIt, Gen.Default.rcUpdateFromIt, RC.updateFromIt, hz]
+  simpa only [RC.toK] using h
+
+/-- `RunningCovariance.covar` / `sample_covar` -/
+theorem rcCovar_refines (s : RC) :
+    Gen.rcCovar ((s.count : ℤ) : K) (s.xmean : K) (s.ymean : K) (s.C : K) = ((s.covar : ℚ) : K) ∧
+    Gen.rcSampleCovar ((s.count : ℤ) : K) (s.xmean : K) (s.ymean : K) (s.C : K) = ((s.sampleCovar : ℚ) : K) := by
+  simp only [Gen.rcCovar, Gen.Default.rcCovar, Gen.rcSampleCovar, Gen.Default.rcSampleCovar, RC.covar, RC.sampleCovar,
+    Gen.covCovar, Gen.Default.covCovar, Gen.covSample, Gen.Default.covSample]
+  push_cast
+  simp
+
 /-! ### the loop of estimate_from_repeats -/
 
 theorem M2_step_nonneg (n mean M2 x : ℚ) (hn : 0 ≤ n) (hM : 0 ≤ M2) : 0 ≤ Gen.welfordM2 n mean M2 x := by
